@@ -397,8 +397,8 @@ PIPELINES = [["flatten"], ["junk", "flatten"], ["split", "split", "junk", "junk"
 def run(res, garble, tier, seed):
     """Returns the number of stages compared."""
     rng = random.Random(seed * 7919 + 11)
-    nrand = 12 if tier == "quick" else 36
-    nseeds = 2 if tier == "quick" else 3
+    nrand = 12 if tier == "quick" else 18
+    nseeds = 2 if tier == "quick" else 2
     sources = [("catalogue", CATALOGUE)]
     for i in range(0, nrand, 6):
         sources.append(("random-%d" % i, "package p\n" + "".join(gen_func(rng, "f%d" % (i + j)) for j in range(6))))
